@@ -145,9 +145,10 @@ def run(res, tier, seed, search):
     dk.check_init_kernels(res, rng, 15 if tier == "quick" else 150)
     start = (seed * combos_n) % len(COMBOS)
     # combos with their own code paths (normalising dot; cosine's zero-row branches) run on every seed
-    always = [("dot", "dense32"), ("cosine", "dense32")]
+    # (+ a sparse metric that takes the feature count: the n_features glue of the constructor)
+    always = [("dot", "dense32"), ("cosine", "dense32"), ("hamming", "csr")]
     rot = [COMBOS[(start + i) % len(COMBOS)] for i in range(combos_n)]
-    for metric, kind in always + [c for c in rot if c not in always][: max(combos_n - 1, 1)]:
+    for metric, kind in always + [c for c in rot if c not in always][: max(combos_n - 2, 1)]:
         for r in range(reps if (metric, kind) not in always or tier != "quick" else 2):
             api_case(res, rng, metric, kind)
     numba.set_num_threads(numba.config.NUMBA_NUM_THREADS)
